@@ -314,6 +314,90 @@ def gen_cases(ctx, policies):
     return cases
 
 
+# ------------------------------------------------------------------ fifth round: the host TEXT against the domain patterns
+# policies in which a domain pattern is the ONLY thing that forbids the target (every name below resolves, through the stub,
+# to an address no subnet entry covers)
+HT_POLICIES = [
+    {"block": [], "allow": [], "domains": ["^LOCALHOST$", "^[A-Z]+\\.CORP$", "Internal\\.Test$"]},
+    {"block": ["10.0.0.0/8"], "allow": [], "domains": ["localhost", "\\.internal$", "^blocked\\.", "^db\\.corp$"]},
+    {"block": [], "allow": [], "domains": ["(?i)^secret\\.test$", "^[A-Z0-9.]+$"]},
+    {"block": [], "allow": ["93.184.0.0/16", "2001:db8::/32"], "domains": ["^xn--", "[^\\x00-\\x7f]", "^[a-z]+\\.Corp$"]},
+]
+HT_NAMES = ["blocked.test2", "x.internal", "secret.test", "db.corp", "www.internal.test", "localhost", "xn--bcher-kva.test"]
+HT_ADDR = {"a": ["93.184.216.34"], "aaaa": ["2001:db8::7"]}
+
+
+def ht_script():
+    sc = {n: [dict(HT_ADDR)] for n in HT_NAMES if n != "localhost"}
+    sc["free.test"] = [dict(HT_ADDR)]
+    return sc
+
+
+def ht_spellings(rng, n):
+    """(class, host text) for a name n: case variants and non-ASCII spellings that UTS46 / NFKC would map onto n"""
+    def fw(c):
+        return chr(ord(c) - 0x61 + 0xFF41) if "a" <= c <= "z" else chr(ord(c) - 0x41 + 0xFF21) if "A" <= c <= "Z" else c
+
+    def circ(c):
+        return chr(ord(c) - 0x61 + 0x24D0) if "a" <= c <= "z" else c
+    mixed = "".join(c.upper() if rng.random() < 0.5 else c for c in n)
+    k = rng.randrange(len(n))
+    out = [("lower", n), ("upper", n.upper()), ("title", ".".join(x.capitalize() for x in n.split("."))), ("mixed", mixed),
+           ("upper-dot", n.upper() + "."),
+           ("fullwidth-1", fw(n[0]) + n[1:]), ("fullwidth-k", n[:k] + fw(n[k]) + n[k + 1:]),
+           ("fullwidth-upper", fw(n[0].upper()) + n[1:]),
+           ("circled", "".join(circ(c) for c in n)), ("soft-hyphen", n[:2] + "\u00ad" + n[2:]),
+           ("ideographic-stop", n.replace(".", "\u3002") if "." in n else n + "\u3002"),
+           ("cyrillic-mix", n.replace("o", "\u043e").replace("a", "\u0430").replace("e", "\u0435")),
+           ("zwj", n[:1] + "\u200d" + n[1:]), ("sharp-s", n.replace("s", "\u017f"))]
+    return [(k_, h) for k_, h in out if k_ in ("lower",) or h != n]
+
+
+def gen_hosttext(ctx, policies):
+    """appends HT_POLICIES to policies; every name x spelling x policy, plus the IDN whose ASCII form is scripted"""
+    rng = ctx.rng
+    base = len(policies)
+    policies.extend(HT_POLICIES)
+    cases = []
+    sc = ht_script()
+    for pi in range(len(HT_POLICIES)):
+        for n in HT_NAMES + ["free.test"]:
+            for cls, h in ht_spellings(rng, n):
+                port = "443" if rng.random() < 0.8 else rng.choice(PORTS_OK)
+                cases.append({"policy": base + pi, "s": hx(("%s:%s" % (h, port)).encode("utf8")), "script": sc, "epoch": 0,
+                              "canon": False, "tag": "ht-" + cls})
+        for h in ("b\u00fccher.test", "B\u00dcCHER.test", "bu\u0308cher.test"):
+            cases.append({"policy": base + pi, "s": hx(("%s:443" % h).encode("utf8")), "script": sc, "epoch": 0,
+                          "canon": False, "tag": "ht-idn"})
+    return cases
+
+
+def ht_count(ctx, pol, c, r):
+    """outcome kinds of the host-text class (required: a generator that stops producing them fails the self-test)"""
+    if not c.get("tag", "").startswith("ht-") or not r["split_ok"]:
+        return
+    host, out = unhx(r["host"]), unhx(r["out"])
+    dm = py_dom_match(pol, host)
+    ascii_ = all(b < 0x80 for b in host)
+    upper = any(0x41 <= b <= 0x5a for b in host)
+    only_upper_pats = dm and not any(re.search(p, host.decode("utf8").lower()) for p in pol["domains"])
+    h = ctx.cov["histogram"]
+
+    def bump(k):
+        h[k] = h.get(k, 0) + 1
+    if out == b"":
+        if dm and ascii_ and upper and only_upper_pats:
+            bump("hosttext/rejected/upper-case-pattern")
+        elif dm and ascii_:
+            bump("hosttext/rejected/pattern")
+        elif dm:
+            bump("hosttext/rejected/non-ascii-pattern")
+        elif not ascii_:
+            bump("hosttext/rejected/non-ascii-unresolvable")
+    else:
+        bump("hosttext/accepted/" + ("upper" if upper else "lower") + ("-name" if r.get("qnames") else ""))
+
+
 def gen_std(ctx, cases):
     rng = ctx.rng
     quick = ctx.tier == "quick"
@@ -536,8 +620,25 @@ def judge(ctx, pol, pdump, c, r, kp="", extra=None):
                          "accepted covert %r -> %r although the policy forbids %s" % (s, outb, ip), info)
             dm = py_dom_match(pol, host)
             if dm:
-                ctx.fail(kp + "accepted/domain-pattern", "accepted covert %r although its host matches a blocklisted "
-                         "domain pattern" % s, info)
+                plain = all(0x61 <= b <= 0x7a or b in b"0123456789.-_" for b in host)
+                ctx.fail(kp + "accepted/domain-pattern" + ("" if plain else "/host-text"), "accepted covert %r although its host "
+                         "matches a blocklisted domain pattern" % s, info)
+            # the name the name system was asked for is the text the patterns were checked against (DNS names compare
+            # without ASCII case and without the root dot), and it matches no pattern either
+            if not r["resolve"]["ok"]:
+                ctx.fail(kp + "accepted/checked-text-unresolvable", "accepted covert %r -> %r although the host text that was "
+                         "checked against the domain patterns does not resolve: something else was resolved" % (s, outb), info)
+            for qn in [unhx(x) for x in r.get("qnames", [])]:
+                # the wire form has no root dot: the text handed to the resolver is the question name plus the root dot
+                # when the host was written with one (the resolver never adds or drops labels: no search list here)
+                if (host or b"").endswith(b".") and not qn.endswith(b"."):
+                    qn += b"."
+                if qn.rstrip(b".").lower() != (host or b"").rstrip(b".").lower():
+                    ctx.fail(kp + "accepted/resolved-name-differs-from-checked-text", "accepted covert %r: the name system was "
+                             "asked for %r, the domain patterns were checked against %r" % (s, qn, host), info)
+                if py_dom_match(pol, qn):
+                    ctx.fail(kp + "accepted/resolved-name-matches-pattern", "accepted covert %r: the name %r that was resolved "
+                             "matches a blocklisted domain pattern" % (s, qn), info)
             # resolved once, and the returned literal needs no resolution
             names = [q.split("/")[0] for q in r["queries"]]
             if len(set(r["queries"])) != len(r["queries"]):
@@ -1036,6 +1137,7 @@ def run(ctx):
     for _ in range(8 if ctx.tier == "quick" else 40):
         policies.append(rand_policy(rng))
     cases = gen_cases(ctx, policies)
+    cases += gen_hosttext(ctx, policies)
     for c in cases:
         if "policy_spec" in c:       # replayed case carrying its own policy
             policies.append(c["policy_spec"])
@@ -1064,13 +1166,16 @@ def run(ctx):
         t = judge(ctx, policies[c["policy"]], pd[c["policy"]], c, r)
         if t is not None:
             terms.append(t)
+        ht_count(ctx, policies[c["policy"]], c, r)
 
     for k in (3, len(cases) // 2, len(cases) - 1):
         c, r = cases[k], res["results"][k]
         ctx.sample({"policy": policies[c["policy"]], "s": unhx(c["s"]).decode("latin1"),
                     "out": unhx(r["out"]).decode("latin1"), "lookup": r["lookup"], "queries": r["queries"]})
     ctx.require_kinds(["accepted/literal", "accepted/name", "rejected/nosplit", "rejected/dns-fail", "rejected/no-ip",
-                       "rejected/policy-or-port", "canon-unchanged"])
+                       "rejected/policy-or-port", "canon-unchanged",
+                       "hosttext/rejected/upper-case-pattern", "hosttext/rejected/pattern", "hosttext/rejected/non-ascii-pattern",
+                       "hosttext/rejected/non-ascii-unresolvable", "hosttext/accepted/upper-name", "hosttext/accepted/lower-name"])
 
     th = time.time()
     run_histories(ctx, terms)
